@@ -1811,6 +1811,11 @@ impl CommandParser {
         
         let cmd_name = Self::extract_string(&frames[0])?.to_uppercase();
         
+        // commands that take no argument refuse extra ones, as their handlers do
+        if matches!(cmd_name.as_str(), "FLUSHDB" | "FLUSHALL" | "DBSIZE" | "RANDOMKEY" | "SAVE" | "BGSAVE" | "LASTSAVE") && frames.len() != 1 {
+            return Err(FerrousError::Command(CommandError::WrongNumberOfArguments(cmd_name)));
+        }
+        
         let command = match cmd_name.as_str() {
             // String commands
             "SET" => Command::String(Self::parse_set(frames)?),
